@@ -58,3 +58,8 @@ const void *wb_thread_ctx(ABT_thread th)
     ABTI_ythread *y = yt(th);
     return y ? (const void *)&y->ctx : NULL;
 }
+
+int wb_thread_is_in_pool(ABT_thread th)
+{
+    return __atomic_load_n(&ABTI_thread_get_ptr(th)->is_in_pool.val, __ATOMIC_RELAXED);
+}
